@@ -1,6 +1,7 @@
 package rules
 
 import (
+	"go/ast"
 	"fmt"
 	"go/token"
 	"go/types"
@@ -92,6 +93,8 @@ func checkC18(c *Ctx) {
 	}
 	c.c18Evict()
 	c.c18Wiring()
+	c.c18DefaultBackend()
+	c.c18Adapter()
 }
 
 // c18Wiring: "with a stats tracker attached" — the tracker given in the configuration is the one the instance emits to: every
@@ -147,6 +150,280 @@ func (c *Ctx) c18Wiring() {
 			r.OK("R18.6", ctor, fmt.Sprintf("%d paths store config.Stats as the instance's tracker", len(paths)))
 		}
 	}
+}
+
+// c18DefaultBackend: a Failover without a user backend creates its own; the read/write/hit/miss/expired events of that instance
+// come from this backend, so it has to be given the Failover's tracker: the options handed to the backend constructor are replayed
+// in order (Config.Use assigns the whole struct, so it discards what earlier options set) and the Stats in effect must be the
+// Failover configuration's Stats.
+func (c *Ctx) c18DefaultBackend() {
+	r := c.R
+	for _, ctor := range []string{"NewFailover", "NewFailoverOf"} {
+		_, paths, _, err := c.runFunc(ctor, pw.Policy{Inline: inlineUnexported, MaxDepth: 2})
+		if err != nil {
+			r.Unknown("R18.6", ctor+":default-backend", err.Error())
+			continue
+		}
+		n, bad := 0, false
+		for _, p := range paths {
+			if bad {
+				break
+			}
+			// the Failover configuration's tracker as read on this path
+			statsReads := map[*pw.Val]bool{}
+			for _, ev := range p.Events {
+				if ev.Kind == pw.EvFieldRead && ev.Field != nil && fname(ev.Field) == "Stats" && ev.Value != nil {
+					if owner := fieldOwnerName(ev.Field); strings.HasPrefix(owner, "FailoverConfig") {
+						statsReads[ev.Value] = true
+					}
+				}
+			}
+			for i, ev := range p.Events {
+				if ev.Kind != pw.EvFieldWrite || ev.Field == nil || fname(ev.Field) != "backend" || ev.Value == nil || ev.Value.Kind != pw.KCall || ev.Value.Ev == nil {
+					continue
+				}
+				call := ev.Value.Ev
+				if call.Callee == nil || !strings.HasPrefix(call.Callee.Name(), "New") {
+					continue
+				}
+				n++
+				var opts []*pw.Val
+				for _, a := range call.Args {
+					if a != nil && a.Kind == pw.KAlloc && len(a.Elems) > 0 {
+						opts = append(opts, a.Elems...)
+					} else if a != nil {
+						opts = append(opts, a)
+					}
+				}
+				state := "unset"
+				for _, o := range opts {
+					switch {
+					case o.Kind == pw.KFuncRef && o.Obj != nil && o.Obj.Name() == "Use" && o.Recv != nil:
+						state = "other"
+						var v *pw.Val
+						if o.Recv.Fields != nil {
+							v = o.Recv.Fields["Stats"]
+						}
+						for _, w := range p.Events[:i] {
+							if w.Kind == pw.EvFieldWrite && w.Field != nil && fname(w.Field) == "Stats" && fieldOwnerName(w.Field) == "Config" && w.Seq < call.Seq && sameHolder(w.Recv, o.Recv) {
+								v = w.Value
+							}
+						}
+						for v != nil && v.Kind == pw.KConv {
+							v = v.Src
+						}
+						if v != nil && statsReads[v] {
+							state = "failover"
+						}
+					case o.Kind == pw.KClosure && o.Lit != nil:
+						switch closureStats(c, o.Lit) {
+						case "failover":
+							state = "failover"
+						case "other":
+							state = "other"
+						}
+					default:
+						state = "unknown"
+					}
+				}
+				switch state {
+				case "failover":
+				case "unknown":
+					r.Unknown("R18.6", ctor+":default-backend", "option form not recognised at "+c.Pos(call.Pos))
+					bad = true
+				default:
+					bad = true
+					r.Bad("R18.6", ctor, "default-backend-without-tracker", c.Pos(call.Pos), "the backend the Failover creates for itself is not configured with the Failover's Stats tracker after all options are applied in order (Config.Use replaces the whole configuration): its hit/miss/expired/write events are never reported", shortTrace(p))
+				}
+			}
+		}
+		if n == 0 {
+			r.Unknown("R18.6", ctor+":default-backend", "no path creates the default backend")
+		} else if !bad {
+			r.OK("R18.6", ctor+":default-backend", fmt.Sprintf("%d paths create the default backend with the Failover's tracker", n))
+		}
+	}
+}
+
+// c18Adapter: NewStatsTracker(add, set) returns the StatsTracker every counter goes through when the user supplies plain functions:
+// its Add must invoke the function given as `add` (first parameter) and its Set the one given as `set`, with the arguments in order.
+func (c *Ctx) c18Adapter() {
+	r := c.R
+	_, fn := c.funcDecl("NewStatsTracker")
+	if fn == nil {
+		r.Unknown("R18.6", "NewStatsTracker", "constructor does not resolve")
+		return
+	}
+	e, paths, _, err := c.runFunc("NewStatsTracker", pw.Policy{Inline: inlineUnexported, MaxDepth: 2})
+	if err != nil {
+		r.Unknown("R18.6", "NewStatsTracker", err.Error())
+		return
+	}
+	sig := fn.Type().(*types.Signature)
+	if sig.Params().Len() != 2 {
+		r.Unknown("R18.6", "NewStatsTracker", "unexpected signature")
+		return
+	}
+	holder := map[string]int{} // field name → index of the parameter stored in it
+	typ := ""
+	for _, p := range paths {
+		if p.Panic || len(p.Ret) == 0 {
+			continue
+		}
+		v := p.Ret[0]
+		for v != nil && (v.Kind == pw.KConv || v.Kind == pw.KAddr) {
+			v = v.Src
+		}
+		if v == nil || v.Kind != pw.KAlloc || v.Fields == nil {
+			r.Unknown("R18.6", "NewStatsTracker", "returned tracker is not a literal")
+			return
+		}
+		typ = namedTypeName(v.Type)
+		for name, fv := range v.Fields {
+			for i := 0; i < 2; i++ {
+				if fv == e.Params[sig.Params().At(i)] {
+					holder[name] = i
+				}
+			}
+		}
+	}
+	if typ == "" || len(holder) != 2 {
+		r.Unknown("R18.6", "NewStatsTracker", fmt.Sprintf("adapter type %q holds %d of the 2 functions", typ, len(holder)))
+		return
+	}
+	for i, m := range []string{"Add", "Set"} {
+		name := typ + "." + m
+		_, mfn := c.funcDecl(name)
+		me, mpaths, _, err := c.runFunc(name, pw.Policy{Inline: inlineUnexported, MaxDepth: 2})
+		if err != nil || mfn == nil {
+			r.Unknown("R18.6", name, "adapter method does not resolve")
+			continue
+		}
+		msig := mfn.Type().(*types.Signature)
+		bad := false
+		for _, p := range mpaths {
+			var calls []*pw.Event
+			for _, ev := range p.Events {
+				if ev.Kind == pw.EvCall && ev.Callee == nil && ev.CalleeVal != nil {
+					calls = append(calls, ev)
+				}
+			}
+			if len(calls) != 1 {
+				bad = true
+				r.Bad("R18.6", name, "adapter-forward", c.Pos(p.RetPos), fmt.Sprintf("the adapter's %s invokes %d functions, expected exactly the one given to NewStatsTracker as %s", m, len(calls), strings.ToLower(m)), shortTrace(p))
+				continue
+			}
+			cv := calls[0].CalleeVal
+			idx, known := -1, false
+			if cv.Kind == pw.KField && cv.Field != nil {
+				idx, known = holder[cv.Field.Name()]
+			}
+			if !known || idx != i {
+				bad = true
+				r.Bad("R18.6", name, "adapter-forward", c.Pos(calls[0].Pos), fmt.Sprintf("the adapter's %s does not invoke the function given to NewStatsTracker as its %s parameter: increments and gauges are swapped or lost", m, strings.ToLower(m)), shortTrace(p))
+				continue
+			}
+			args := calls[0].Args
+			for k := 0; k < msig.Params().Len() && k < 3; k++ {
+				if k >= len(args) || args[k] != me.Params[msig.Params().At(k)] {
+					bad = true
+					r.Bad("R18.6", name, "adapter-arguments", c.Pos(calls[0].Pos), fmt.Sprintf("argument %d of the forwarded call is not the method's own parameter %d", k, k), shortTrace(p))
+					break
+				}
+			}
+		}
+		if !bad {
+			r.OK("R18.6", name, "forwards to the function NewStatsTracker received as "+strings.ToLower(m)+", arguments in order")
+		}
+	}
+}
+
+// sameHolder: two values denote the same struct-valued location (same value, or field reads of the same field of the same receiver).
+func sameHolder(a, b *pw.Val) bool {
+	for i := 0; i < 4 && a != nil && b != nil; i++ {
+		if a == b {
+			return true
+		}
+		if a.Kind == pw.KAddr && b.Kind == pw.KAddr {
+			return a.Path == b.Path
+		}
+		if a.Kind == pw.KAddr {
+			a = a.Src
+			continue
+		}
+		if b.Kind == pw.KAddr {
+			b = b.Src
+			continue
+		}
+		if a.Kind == pw.KField && b.Kind == pw.KField && a.Field == b.Field {
+			a, b = a.Recv, b.Recv
+			continue
+		}
+		return false
+	}
+	return false
+}
+
+func fieldOwnerName(f *types.Var) string {
+	if f == nil || f.Pkg() == nil {
+		return ""
+	}
+	sc := f.Pkg().Scope()
+	for _, n := range sc.Names() {
+		tn, ok := sc.Lookup(n).(*types.TypeName)
+		if !ok {
+			continue
+		}
+		st, ok := tn.Type().Underlying().(*types.Struct)
+		if !ok {
+			continue
+		}
+		for i := 0; i < st.NumFields(); i++ {
+			if st.Field(i).Origin() == f.Origin() {
+				return canonTypeName(tn)
+			}
+		}
+	}
+	return ""
+}
+
+// closureStats inspects an option literal: "failover" when it assigns <param>.Stats from a FailoverConfig's Stats, "other" when it
+// assigns Stats otherwise or replaces the whole configuration, "" when it leaves Stats alone.
+func closureStats(c *Ctx, lit *ast.FuncLit) string {
+	info := c.Pkg.TypesInfo
+	res := ""
+	ast.Inspect(lit.Body, func(x ast.Node) bool {
+		as, ok := x.(*ast.AssignStmt)
+		if !ok {
+			return true
+		}
+		for i, l := range as.Lhs {
+			if st, ok := ast.Unparen(l).(*ast.StarExpr); ok {
+				if namedTypeName(info.TypeOf(st)) == "Config" {
+					res = "other"
+				}
+				continue
+			}
+			sel, ok := ast.Unparen(l).(*ast.SelectorExpr)
+			if !ok {
+				continue
+			}
+			sl := info.Selections[sel]
+			if sl == nil || sl.Kind() != types.FieldVal || selFieldName(sl) != "Stats" {
+				continue
+			}
+			res = "other"
+			if i < len(as.Rhs) && len(as.Lhs) == len(as.Rhs) {
+				if rs, ok := ast.Unparen(as.Rhs[i]).(*ast.SelectorExpr); ok {
+					if rsl := info.Selections[rs]; rsl != nil && rsl.Kind() == types.FieldVal && selFieldName(rsl) == "Stats" && strings.HasPrefix(namedTypeName(rsl.Recv()), "FailoverConfig") {
+						res = "failover"
+					}
+				}
+			}
+		}
+		return true
+	})
+	return res
 }
 
 func (c *Ctx) c18Read(b BK) {
@@ -349,7 +626,15 @@ func (c *Ctx) c18Batch(b BK) {
 					case pw.KArith:
 						ok = v.Op == token.ADD
 					case pw.KConst, pw.KZero:
-						ok = true // zero iterations: counter still 0
+						// zero iterations: counter still 0. On a path that went through an entry's iteration the value is the
+						// incremented counter — a constant there is the counter read before the loop ran (e.g. the argument of a
+						// defer statement placed ahead of the loop, evaluated when the defer executes)
+						ok = true
+						for _, g := range iterations(p) {
+							if g.overData {
+								ok = false
+							}
+						}
 					case pw.KParam:
 						ok = true // inlined Notify: the parameter bound to the counter
 					}
